@@ -46,7 +46,16 @@ pub fn run(ctx: &mut Ctx) {
         let mode = [Mode::TwoFiles, Mode::NoConcat, Mode::OneFile][(case % 3) as usize];
         let extra = if mode == Mode::OneFile { 1 + (case % 3) as u16 } else { (case % 4) as u16 };
         let comp = *crng.pick(&[Comp::None, Comp::Zstd(3), Comp::Lz4(2)]);
-        let spec: Spec = container::random_spec(&mut crng, mode, comp, 8, extra);
+        let mut spec: Spec = container::random_spec(&mut crng, mode, comp, 8, extra);
+        if extra >= 2 {
+            // manifests listing their content packs out of increasing-id order, with dense ids
+            // (1, 3, 2 / 1, 4, 3, 2) on odd cases and in creation order on even ones
+            spec.rev_extras = case % 2 == 1;
+            if spec.rev_extras {
+                spec.id_gap = 0;
+            }
+        }
+        ctx.count(if spec.rev_extras { "manifest_order:ids-not-increasing" } else { "manifest_order:ids-increasing" });
         let root = ctx.work.join(format!("c11-{}", case));
         let dir = root.join("orig");
         std::fs::create_dir_all(&dir).unwrap();
